@@ -197,7 +197,7 @@ theorem tempoChange_indep (s : Song) (x : Int) : Indep s (tempoChange s x) := by
 theorem toLoopTok_other (t a : Tok) (h : toLoopTok t = .other a) : a = t := by
   unfold toLoopTok at h
   split at h
-  · split at h <;> simp at h; exact h.symm
+  · simp at h
   · simp at h
   · simp at h
   · simp at h; exact h.symm
